@@ -162,32 +162,35 @@ End Reconcile.
 Section Plan.
   Variables total nc cap buffer fee : Z.
   Variable orc : oracle.
+  Variables (L : list Z) (mind maxd : Z).
+  Hypothesis HL : Ladder L mind maxd.
   Hypothesis Htotal : 0 <= total <= MAX_MONEY.
   Hypothesis Hbuffer : 0 <= buffer <= MAX_MONEY.
   Hypothesis Hfee : 0 <= fee <= MAX_MONEY.
   Hypothesis Hcap : 0 <= cap.
 
-  Let full := canonical_split (Z.to_nat cap) total buffer fee (nc =? 1).
-  Let assumed := assumed_txs (Z.to_nat cap) total buffer fee (nc =? 1).
+  Let full := split_of L (Z.to_nat cap) total buffer fee (nc =? 1).
+  Let assumed := assumed_of L (Z.to_nat cap) total buffer fee (nc =? 1).
 
-  Lemma full_bounds : Forall (fun c => MIN <= c <= CAP) full.
+  Lemma full_bounds : Forall (fun c => mind <= c <= maxd) full.
   Proof.
-    eapply Forall_impl; [|apply (split_canonical total buffer fee)]. cbn. intros a [_ H]. exact H.
+    eapply Forall_impl; [|apply (split_members_g total buffer fee L)]. cbn. intros a H.
+    exact (lad_bounds _ _ _ HL a H).
   Qed.
 
   Lemma assumed_nonneg : 0 <= assumed * fee.
   Proof.
-    unfold assumed, assumed_txs. destruct (_ && _); [lia|].
+    unfold assumed, assumed_of. destruct (_ && _); [lia|].
     apply Z.mul_nonneg_nonneg; [|lia]. apply TxsArith.stxs_nonneg. lia.
   Qed.
 
   Lemma full_cost : sumZ (notes_of buffer full) + assumed * fee <= total.
-  Proof. apply (split_cost total buffer fee); lia. Qed.
+  Proof. apply (split_cost_g total buffer fee L); lia. Qed.
 
   Lemma notes_nonneg_full : Forall (fun x => 0 <= x) (notes_of buffer full).
   Proof.
     unfold notes_of. apply Forall_map. eapply Forall_impl; [|exact full_bounds].
-    cbn. pose proof MIN_pos. intros; lia.
+    cbn. pose proof (lad_pos _ _ _ HL). intros; lia.
   Qed.
 
   Lemma notes_sum : sumZ (notes_of buffer full) <= total.
@@ -217,11 +220,11 @@ Section Plan.
   Qed.
 
   (** The complete description of a plan, for every oracle. *)
-  Theorem plan_spec :
+  Theorem plan_spec_g :
     exists (k : nat) (n : Z) (calls : nat),
       let cross := firstn k full in
       let rem := total - sumZ (notes_of buffer cross) - n * fee in
-      plan_denominations total nc cap buffer fee orc
+      plan (mkStrategy cap maxd mind buffer) total nc fee orc
       = Ok (mkPlan cross (notes_of buffer cross) (if 0 <? rem then Some rem else None)
                    (n * fee) total (sumZ cross) buffer (Z.of_nat calls))
       /\ (k <= length full)%nat /\ 0 <= n /\ 0 <= rem
@@ -231,21 +234,21 @@ Section Plan.
             sumZ (notes_of buffer full) + Z.of_N n0 * fee <= total ->
             k = length full /\ n = Z.of_N n0).
   Proof.
-    pose proof MM_small as MS. pose proof CAP_le_MM as CM. pose proof MIN_pos as MP.
+    pose proof MM_small as MS. pose proof (lad_max _ _ _ HL) as CM. pose proof (lad_pos _ _ _ HL) as MP.
     pose proof notes_valid as NV. pose proof notes_sum as NS. pose proof notes_nonneg_full as NN.
     pose proof full_bounds as FB.
     destruct (reconcile_spec orc (notes_of buffer full) fee total ltac:(lia) Htotal NV NS (length full) O)
       as [k [n [calls [R [K1 [K2 [K3 K4]]]]]]].
     exists k, n, calls. cbn zeta.
-    unfold plan_denominations, plan. cbn [zip318_strategy s_buf].
-    rewrite (split_correct total buffer fee cap Htotal Hbuffer Hfee nc Hcap). cbn [bind]. fold full.
+    unfold plan. cbn [s_buf].
+    rewrite (split_correct_g total buffer fee cap L mind maxd HL Htotal Hbuffer Hfee nc Hcap). cbn [bind]. fold full.
     rewrite (map_res_ok (fun c => u64 (c + buffer)) (fun c => c + buffer)).
     2:{ rewrite Forall_forall in NV. apply Forall_forall. intros c Hc. apply u64_ok.
         specialize (NV (c + buffer) (in_map (fun c => c + buffer) full c Hc)). lia. }
     cbn [bind]. fold (notes_of buffer full). rewrite R. cbn [bind].
     rewrite notes_of_firstn.
     set (cross := firstn k full).
-    assert (CB : Forall (fun c => MIN <= c <= CAP) cross) by (apply Forall_firstn; exact FB).
+    assert (CB : Forall (fun c => mind <= c <= maxd) cross) by (apply Forall_firstn; exact FB).
     assert (KN : Forall (fun x => 0 <= x) (notes_of buffer cross)).
     { unfold cross. rewrite <- notes_of_firstn. apply Forall_firstn. exact NN. }
     assert (KS : sumZ (notes_of buffer cross) <= sumZ (notes_of buffer full)).
@@ -299,3 +302,25 @@ Section Plan.
     rewrite notes_of_firstn, firstn_all in K4. destruct (K4 n0 LP HO Hle) as [A [B _]]. split; assumption.
   Qed.
 End Plan.
+
+(** The normative ZIP 318 bounds ([plan_denominations]). *)
+Theorem plan_spec total nc cap buffer fee (orc : oracle) :
+  0 <= total <= MAX_MONEY -> 0 <= buffer <= MAX_MONEY -> 0 <= fee <= MAX_MONEY -> 0 <= cap ->
+  let full := canonical_split (Z.to_nat cap) total buffer fee (nc =? 1) in
+  exists (k : nat) (n : Z) (calls : nat),
+    let cross := firstn k full in
+    let rem := total - sumZ (notes_of buffer cross) - n * fee in
+    plan_denominations total nc cap buffer fee orc
+    = Ok (mkPlan cross (notes_of buffer cross) (if 0 <? rem then Some rem else None)
+                 (n * fee) total (sumZ cross) buffer (Z.of_nat calls))
+    /\ (k <= length full)%nat /\ 0 <= n /\ 0 <= rem
+    /\ (k = O -> n = 0)
+    /\ ((0 < k)%nat -> (0 < calls)%nat /\ orc (Nat.pred calls) (notes_of buffer cross) = Some (Z.to_N n))
+    /\ (forall n0, full <> [] -> orc O (notes_of buffer full) = Some n0 ->
+          sumZ (notes_of buffer full) + Z.of_N n0 * fee <= total ->
+          k = length full /\ n = Z.of_N n0).
+Proof.
+  intros Ht Hb Hf Hc. cbn zeta.
+  destruct (plan_spec_g total nc cap buffer fee orc series MIN CAP zip318_ladder Ht Hb Hf Hc) as [k [n [calls H]]].
+  exists k, n, calls. cbn zeta in H. rewrite !split_of_series in H. exact H.
+Qed.
